@@ -93,12 +93,15 @@ fn gen_sequential(rng: &mut Rng) -> Program {
             10 => Op::Snap { reclaim: rng.chance(1, 3) },
             0 | 1 => Op::Set { key, val },
             2..=5 => {
-                let ver = match rng.below(6) {
+                let ver = match rng.below(7) {
                     0 => Ver::Abs(-1),
                     1 => Ver::Rel(-1),
                     2 => Ver::Rel(0),
                     3 => Ver::Rel(1),
                     4 => Ver::Abs(100_000 + rng.below(10) as i32),
+                    // below the protocol's "no version" (-1): never a version a key can have, so never "not older"
+                    // than an existing key's
+                    5 => Ver::Abs(-2 - rng.below(3) as i32),
                     _ => Ver::Rel(0),
                 };
                 Op::SetSafe { key, ver, val }
@@ -351,7 +354,10 @@ fn run_sequential(w: &World, s: &mut Session, ops: &[Op]) -> Vec<Violation> {
                     Some(v) => !before_present || v == -1 || v >= bver,
                 };
                 let ok = !r.resp.is_err();
-                if ok != must_succeed {
+                // a version below -1 presented for an absent key: not a version at all; whether that is "a write to
+                // an absent key" (succeeds) or malformed input (refused) is not judged, only that the reply is true
+                let unjudged = matches!(passed, Some(v) if v < -1) && !before_present;
+                if ok != must_succeed && !unjudged {
                     viols.push(Violation::new(
                         if ok { "stale-accepted" } else { "fresh-refused" },
                         op.kind(),
@@ -474,14 +480,16 @@ fn run_wire(w: &World, admin: &mut Session, transport: &str, ops: &[Op]) -> Vec<
         let after = parse_value_version(&admin.exec(&format!("get-safe {}", key)).msgs);
         let (aver, aval) = after.clone().unwrap_or((0, String::new()));
         // the reply's class: an error text, or an acknowledgement (`ok` on tcp / ws, `empty` in an HTTP entry)
-        let said_error = replies.iter().any(|m| {
-            let m = m.trim();
-            m.starts_with("error") || m.contains("Invalid version") || m.contains("not numeric") || m.contains("conflitct")
-        });
+        // (an HTTP entry is `empty` for an acknowledged command without a value, else the bare error text)
         let said_ok = replies.iter().any(|m| {
             let m = m.trim();
             m == "ok" || m == "empty"
         });
+        let said_error = if transport == "http" {
+            !said_ok && replies.iter().any(|m| !m.trim().is_empty() && !m.starts_with("value"))
+        } else {
+            replies.iter().any(|m| m.trim().starts_with("error"))
+        };
         match op {
             Op::Set { val, .. } | Op::SetSafe { val, .. } => {
                 let applied = after_present && &aval == val && (aver != bver || bval != *val || !before_present);
